@@ -2,6 +2,7 @@ package main
 
 import (
 	"context"
+	"runtime"
 	"fmt"
 	"strings"
 	"sync"
@@ -46,9 +47,13 @@ func runC38(c *Ctx) error {
 		if err != nil {
 			return err
 		}
+		// last block = height 30 with hash prevs[0]: Make for 31 with prevs[0] makes a full proposal, for 31 with
+		// prevs[1] or for 32+ an empty one (preferEmpty path inside Make); height 29 is accepted, below is too old
+		lastBM := base.NewDummyBlockMap(base.NewDummyManifest(base.Height(30), prevs[0]))
 		maker := isaac.NewProposalMaker(local, hNetworkID, func(ctx context.Context, h base.Height) ([][2]util.Hash, error) {
 			return pool.OperationHashes(ctx, h, 5, nil)
-		}, pool, nil)
+		}, pool, func() (base.BlockMap, bool, error) { return lastBM, true, nil })
+		dP, _ := pool.VerifCleanDeeps()
 		facts := make([]isaac.DummyOperationFact, 3)
 		for i := range facts {
 			facts[i] = isaac.NewDummyOperationFact(util.UUID().Bytes(), util.BytesToByter(c.Bytes(4)))
@@ -58,9 +63,18 @@ func runC38(c *Ctx) error {
 		var toks, outs []string
 		nsteps := 4 + c.Intn(12)
 		for st := 0; st < nsteps; st++ {
-			h, r, pv := 30+c.Intn(3), c.Intn(2), c.Intn(2)
+			h, r, pv := 29+c.Intn(6), c.Intn(2), c.Intn(2)
 			point := base.NewPoint(base.Height(h), base.Round(uint64(r)))
-			switch k := c.Intn(10); {
+			k := c.Intn(11)
+			if k == 10 { // proposal cleanup (as the pool's periodic cleaner does)
+				if _, err := pool.VerifCleanProposals(); err != nil {
+					return err
+				}
+				toks = append(toks, fmt.Sprintf("c:%d", dP))
+				outs = append(outs, "-")
+				continue
+			}
+			switch {
 			case k < 5:
 				var pr base.ProposalSignFact
 				var err error
@@ -133,9 +147,17 @@ func runC38(c *Ctx) error {
 		if err != nil {
 			return err
 		}
+		lastBM := base.NewDummyBlockMap(base.NewDummyManifest(base.Height(40), prevs[0]))
+		var lbm func() (base.BlockMap, bool, error)
+		if ri%2 == 0 { // half of the rounds with a known last block: heights 41 (next) and 42 (unreachable)
+			lbm = func() (base.BlockMap, bool, error) {
+				runtime.Gosched()
+				return lastBM, true, nil
+			}
+		}
 		maker := isaac.NewProposalMaker(local, hNetworkID, func(ctx context.Context, h base.Height) ([][2]util.Hash, error) {
 			return pool.OperationHashes(ctx, h, 4, nil)
-		}, pool, nil)
+		}, pool, lbm)
 		fact := isaac.NewDummyOperationFact(util.UUID().Bytes(), util.BytesToByter(c.Bytes(4)))
 		var mu sync.Mutex
 		got := map[string]map[string]bool{}
@@ -151,7 +173,7 @@ func runC38(c *Ctx) error {
 				s := seeds[g]
 				for k := 0; k < 6; k++ {
 					s = s*6364136223846793005 + 1442695040888963407
-					h, pv := 40+int(s>>33)%2, int(s>>40)%2
+					h, pv := 41+int(s>>33)%2, int(s>>40)%2
 					point := base.NewPoint(base.Height(h), 0)
 					if g == 0 { // operations arrive concurrently
 						op, _ := isaac.NewDummyOperation(fact, privs[k%2], hNetworkID)
